@@ -887,6 +887,10 @@ class Interp:
             return True
         if ft[0] == "global" and ft[1].split(".")[-1] in self.extra_pure:
             return True
+        if ft[0] == "global" and "." in ft[1] and not ft[1].startswith(
+                "builtins.") and ft[1].split(".")[-1] in self.PURE_METHODS \
+                and ft[1].rpartition(".")[0] not in self.m.modules:
+            return True    # pure method of a module-level object
         return False
 
     def inline_call(self, callee, recv, args, kws, closure_env, node):
